@@ -78,9 +78,34 @@ Cond_C20_PathOrder == (IsW /\ Ev.passive /\ Ev.target = "match" /\ ~Ev.mp) =>
     \A i, j \in 1 .. Len(Ev.loads) :
        (Known(Ev.loads[i]) /\ Known(Ev.loads[j]) /\ FirstIdx(Ev.loads[i]) < FirstIdx(Ev.loads[j])) =>
           MinDepth(Ev.loads[i]) <= MaxDepth(Ev.loads[j])
+\* The exact request sequence of a path traversal (target = the match selector, passive visitor, no path matching):
+\* for every directory on the way the shards its lookup of the next segment visits below the directory's own root
+\* block (HamtOps!LookupS over the walker's shard table; none for a plain directory), then the root block of the
+\* entry found - and nothing after a segment that names no entry or below a node that is not a directory.
+H == INSTANCE HamtOps
+EntAt(p) == LET ks == {k \in 1 .. Len(BT) : BT[k].path = p} IN IF ks = {} THEN 0 ELSE CHOOSE k \in ks : TRUE
+ShardChain(e, i) ==
+    IF e.kind # "hamt" \/ e.S = <<>> THEN <<>>
+    ELSE LET r == H!LookupS(e.S, 1, Ev.segDigits[i], 0, Ev.segIds[i])
+         IN  [k \in 1 .. (Len(r.path) - 1) |-> e.S[r.path[k + 1]].c]
+RECURSIVE ExpLoadsFrom(_)
+ExpLoadsFrom(p) ==
+    IF p = Len(Ev.segs) THEN <<>>
+    ELSE LET e  == EntAt(SubSeq(Ev.segs, 1, p))
+             ch == EntAt(SubSeq(Ev.segs, 1, p + 1))
+         IN  IF e = 0 \/ BT[e].kind \notin {"dir", "hamt"} THEN <<>>
+             ELSE ShardChain(BT[e], p + 1) \o (IF ch = 0 THEN <<>> ELSE <<BT[ch].cls[1]>> \o ExpLoadsFrom(p + 1))
+Cond_C20_PathExact == (IsW /\ Ev.passive /\ ~Ev.consume /\ Ev.target = "match" /\ ~Ev.mp /\ Ev.e = "nil") =>
+    Ev.loads = ExpLoadsFrom(0)
+
+\* the sequence of requests is a function of the DAG and the path alone: a second traversal in the same process
+\* (fresh store, link system and root node) requests exactly what the first one did
+Cond_C20_PathSame == (IsW /\ Ev.again) => Ev.loads = Ev.prevLoads
 
 Chk(nm, c) == c \/ PrintT(<<"VIOL", nm, l - 1>>)
 Inv_NoPanic == Chk("Inv_NoPanic", Cond_NoPanic)
+Inv_C20_PathExact == Chk("Inv_C20_PathExact", Cond_C20_PathExact)
+Inv_C20_PathSame == Chk("Inv_C20_PathSame", Cond_C20_PathSame)
 Inv_C03_Target == Chk("Inv_C03_Target", Cond_C03_Target)
 Inv_C03_NothingElse == Chk("Inv_C03_NothingElse", Cond_C03_NothingElse)
 Inv_C03_PathNodes == Chk("Inv_C03_PathNodes", Cond_C03_PathNodes)
